@@ -599,11 +599,17 @@ int __wrap_open(const char *path, int flags, ...)
 		jail_check("open", AT_FDCWD, path, !(flags & O_NOFOLLOW) && !((flags & O_CREAT) && (flags & O_EXCL)));
 	if ((cls == journal_cls || cls == kill_cls) && (flags & (O_CREAT | O_TRUNC)))
 		mutation_point(cls);
+	/* an existing file opened without O_TRUNC keeps its content: 'O' instead of 'C' in the journal */
+	int existed = 0;
+	if (cls == journal_cls && !(flags & O_TRUNC)) {
+		struct stat sb;
+		existed = __real_fstatat(AT_FDCWD, path, &sb, 0) == 0 && sb.st_size > 0;
+	}
 	int fd = __real_open(path, flags, mode);
 	if (fd >= 0) {
 		set_class(fd, cls);
 		if (cls == journal_cls && journal_fd >= 0 && (flags & (O_CREAT | O_TRUNC)))
-			journal_rec('C', 0, NULL, 0);
+			journal_rec(existed ? 'O' : 'C', 0, NULL, 0);
 	}
 	return fd;
 }
